@@ -279,6 +279,8 @@ class Pow(OpDef):
         for n in EXPONENTS:
             for s in ([(3,), (2, 2)] if tier == "quick" else [(), (3,), (2, 2), (1, 2, 1)]):
                 out.append({"a": L(s), "n": n})
+        out.append({"a": [2], "n": 2, "np": True})
+        out.append({"a": [2], "n": 0.5, "np": True})
         return out
 
     def illegal_configs(self, tier):
@@ -299,6 +301,8 @@ class Pow(OpDef):
             n = ts[0]
         elif n == "str":
             n = "2"
+        elif args.get("np"):        # the exponent as a NumPy scalar (np.float64 is a Python float): the result keeps the tensor's dtype
+            n = np.float64(n)
         return ts[0] ** n
 
     def reference(self, args, xs, extra):
@@ -326,13 +330,14 @@ class RPow(OpDef):
         for b in BASES:
             for s in ([(3,)] if tier == "quick" else [(), (3,), (2, 2)]):
                 out.append({"a": L(s), "base": b})
+        out.append({"a": [2], "base": BASES[0], "np": True})
         return out
 
     def inputs(self, args):
         return [Inp("a", args["a"])]
 
     def forward(self, args, ts, extra):
-        return args["base"] ** ts[0]
+        return (np.float64(args["base"]) if args.get("np") else args["base"]) ** ts[0]
 
     def reference(self, args, xs, extra):
         o = objarr(xs[0].shape)
